@@ -462,11 +462,11 @@ def _run_lsq(case):
             T, targ = np.identity(n), None
         elif tname.startswith("second"):
             T = _laplacian("path", n)                              # second-difference operator (singular: T 1 = 0)
-            targ = T
+            targ = T.copy()      # the caller's own array, passed to every call of this case (as in an alpha scan); T stays pristine for the reference
         else:
             T = np.zeros((n, n))                                   # regularises the first cell only: [W; T] is rank
             T[0, 0] = 1.0                                          # deficient whenever the other columns of W are dependent
-            targ = T
+            targ = T.copy()
         crank = cert.rank_int([list(r) for r in Wl] + [[int(v) for v in row] for row in T])
         tiks.append((tname, T, targ, crank))
 
@@ -617,6 +617,9 @@ def _run_lsq(case):
             nontrivial.add(("lsq", wkey, bt))
     if not np.array_equal(W, W_orig):
         _V(viol, "lsq:input-mutated", "geometry matrix modified by a call (harness integrity)", W_orig, W)
+    for tname, T, targ, crank in tiks:
+        if targ is not None and not np.array_equal(targ, T):
+            _V(viol, "lsq:input-mutated:tikhonov_matrix", "the caller's tikhonov_matrix (%s) was modified by the solver calls it was passed to" % tname, T.tolist(), targ.tolist())
     return {"viol": list(viol.values()), "classes": cl, "n": ncalls, "transitions": ncalls, "states": states, "nontrivial": nontrivial,
             "outcome": ("lsq", wkey, len(viol), cl.get("nnls:constraint-active", 0), cl.get("lstsq:negative-component", 0))}
 
